@@ -195,7 +195,7 @@ PrefixOK == \A i \in 1..Len(Groups) :
     /\ g.authset => /\ \A k \in 1..10 : S.sess[k] = [r |-> StdSess[k][1], w |-> StdSess[k][2], state |-> "live"]
                     /\ S.sess[11].state = "expired" /\ S.sess[12].state = "gone"
 
-PanicKinds == {"action", "data", "struct", "record", "handler", "wrap"}
+PanicKinds == {"action", "data", "struct", "record", "handler", "wrap", "handlerlate", "wraplate"}
 PanicValues == {"nil", "err", "str", "rt", "struct"}
 PanicOps == {OpPanic(k, v, m) : k \in PanicKinds, v \in PanicValues, m \in {"GET", "POST"}}
 
